@@ -671,3 +671,44 @@ def nvecs_stub(E):
         yield stub
     finally:
         ttb.tensor.nvecs = real
+
+
+class SolveStub:
+    def __init__(self, E):
+        self.E = E
+        self.calls = []
+
+
+@contextlib.contextmanager
+def solve_stub(E):
+    """opaque numerics for np.linalg.solve: 'sym' mode returns a fresh symbolic solution and records the system
+    handed over; 'conc' mode records the system and the real solution."""
+    from . import oracles
+    stub = SolveStub(E)
+    real = np.linalg.solve
+
+    def rec(A, B, Z):
+        stub.calls.append(dict(A=oracles.cells(np.asarray(A)), B=oracles.cells(np.asarray(B)), Z=Z))
+
+    if E.sym:
+        def fake(A, B):
+            c = len(stub.calls)
+            Z = E.reals(f"sol{c}_", np.shape(B))
+            rec(A, B, Z)
+            return Z
+        old = npenv.SOLVE_HOOK[0]
+        npenv.SOLVE_HOOK[0] = fake
+        try:
+            yield stub
+        finally:
+            npenv.SOLVE_HOOK[0] = old
+    else:
+        def wrapped(A, B):
+            Z = real(A, B)
+            rec(A, B, Z)
+            return Z
+        np.linalg.solve = wrapped
+        try:
+            yield stub
+        finally:
+            np.linalg.solve = real
